@@ -354,6 +354,20 @@ def guardCmd (toks : List String) : String :=
             | _ => ((t, t), [])) }
         verdict (Guards.badDecl ps d)
       | _ => "bad-op"
+  | "decltrue" :: rest =>   -- order2=True on top of an order1 declaration: verdict of the expanded declaration
+      match splitOnTok ";" rest with
+      | [ps, p2, o1] =>
+        let P2 := p2.map (fun t => match t.splitOn "," with | [a, b] => (a, b) | _ => (t, t))
+        let O1 := o1.map (fun t => match t.splitOn ":" with | [v, p] => (v, csv p) | _ => (t, []))
+        verdict (Guards.badDecl ps { order1 := O1, order2 := Guards.expandAll P2 O1 })
+      | _ => "bad-op"
+  | "expand" :: rest =>     -- the pairs `order2=True` stands for
+      match splitOnTok ";" rest with
+      | [p2, o1] =>
+        let P2 := p2.map (fun t => match t.splitOn "," with | [a, b] => (a, b) | _ => (t, t))
+        let O1 := o1.map (fun t => match t.splitOn ":" with | [v, p] => (v, csv p) | _ => (t, []))
+        "pairs " ++ " ".intercalate ((Guards.expandAll P2 O1).map (fun e => e.1.1 ++ "," ++ e.1.2))
+      | _ => "bad-op"
   | "seq" :: rest => verdict (Guards.badSequence (parseSeq rest).1)
   | "seqvars" :: rest =>
       match splitOnTok ";" rest with
